@@ -270,6 +270,8 @@ def lift {α : Type} (x : R α) : M α := fun d => (x, d)
 def get : M Disk := fun d => (.ok d, d)
 def setRaw (r : Raw) : M Unit := fun d => (.ok (), { d with raw := r })
 def setFat (f : Array Nat) : M Unit := fun d => (.ok (), { d with fat := some f })
+/-- `self.maybe_fat = None` -/
+def dropFat : M Unit := fun d => (.ok (), { d with fat := none })
 end M
 
 instance : Monad M where
@@ -812,7 +814,9 @@ def gotoLoop : List Bytes → List (Bytes × FInfo) → FInfo → M (Option FInf
     match getFile subdir files with
     | none => M.fail .fileNotFound
     | some curr =>
-      if terminus || nullTerminus then pure (some parent, curr) else do
+      if terminus || nullTerminus then pure (some parent, curr) else
+      -- a path does not lead through a file (fix 18164ab)
+      if !curr.directory then M.fail .fileNotFound else do
       let newDir ← getDirectory curr.cluster1
       let files' ← buildFilesM newDir
       gotoLoop rest files' curr
@@ -838,6 +842,8 @@ def prepareToWrite (path : Bytes) : M (Bytes × Option Nat × Nat × Directory) 
   match ← tryM (gotoPath parentPath) with
   | none => M.fail .fileNotFound
   | some (_, parent) =>
+    -- the parent of a new file or directory has to be a directory (fix 18164ab)
+    if !parent.directory then M.fail .fileNotFound else
     let searchDir ← getDirectory parent.cluster1
     let files ← buildFilesM searchDir
     match getFile newName files with
@@ -872,6 +878,14 @@ def FImg.dirOrLabel (f : FImg) : Bool :=
   match f.access.head? with
   | some a => decide (a &&& (VOLUME_ID ||| DIRECTORY) ≠ 0)
   | none => false
+
+/-- what `put` checks of the file image before it touches anything (fix 7da7b06): every chunk `0 ..< end` is present and no
+longer than `chunk_len`, and the four size bytes (if there are four) do not exceed `end · chunk_len` -/
+def FImg.storable (f : FImg) : Bool :=
+  (List.range f.end).all (fun k => match f.chunks.lookup k with
+    | some data => decide (data.length ≤ f.chunkLen)
+    | none => false) &&
+  (decide (f.eof.length < 4) || decide (le32 f.eof 0 ≤ f.end * f.chunkLen))
 
 /-- `fimg_to_metadata(fimg, true)`: the slices panic when the vectors are too short -/
 def fimgToMetadata (e : Bytes) (f : FImg) : R Bytes :=
@@ -910,6 +924,7 @@ def put (f : FImg) (now : Stamp) : M Nat := do
   if f.chunkLen ≠ d.bpb.blockSize then M.fail .incorrectDOS else
   -- `fimg.access.len()>0 && fimg.access[0] & (VOLUME_ID | DIRECTORY) != 0`
   if f.dirOrLabel then M.fail .writeFault else
+  if !f.storable then M.fail .writeFault else
   let (name, cluster1, idx, dir) ← prepareToWrite f.fullPath
   let entry ← M.lift (fimgToMetadata (entryCreate (stringToFileName name) 0 now) f)
   let dir' ← M.lift (dirSet dir idx entry)
@@ -1115,6 +1130,8 @@ def format (volName : Bytes) (boot : Bytes) (now : Stamp) : M Unit := do
   let d ← M.get
   let r ← M.lift (imgWriteSector d.raw 0 boot)
   M.setRaw r
+  -- every sector has just been overwritten: a FAT buffer opened earlier describes the old volume (fix 55a0597)
+  M.dropFat
   let f ← getFatBuffer
   let d ← M.get
   let f1 ← M.lift (setCluster d.typ f 0 (b.media + 0xf00))
